@@ -67,12 +67,6 @@ func families(rng *rand.Rand, thorough bool) []input {
 		}
 	}
 	gen(nil, maxLen)
-	// runs (match length 60 chains), incl. lengths around F and N
-	for _, n := range []int{1, 2, 3, 59, 60, 61, 62, 119, 120, 121, 2047, 2048, 2049, 2107, 2108, 2109, 5000} {
-		add(fmt.Sprintf("run-a-%d", n), bytes.Repeat([]byte{'a'}, n))
-		add(fmt.Sprintf("run-sp-%d", n), bytes.Repeat([]byte{' '}, n))
-		add(fmt.Sprintf("run-nul-%d", n), bytes.Repeat([]byte{0}, n))
-	}
 	// periodic strings with periods around 1, 2, 3, F and N
 	for _, p := range []int{1, 2, 3, 59, 60, 61, 2047, 2048, 2049} {
 		unit := make([]byte, p)
@@ -109,6 +103,12 @@ func families(rng *rand.Rand, thorough bool) []input {
 		add(fmt.Sprintf("zero60-at-%d", off), d)
 		d2 := append(bytes.Repeat([]byte{'q'}, 2048), d...)
 		add(fmt.Sprintf("zero60-at-2048+%d", off), d2)
+	}
+	// runs (match length 60 chains), incl. lengths around F and N
+	for _, n := range []int{1, 2, 3, 59, 60, 61, 62, 119, 120, 121, 2047, 2048, 2049, 2107, 2108, 2109, 5000} {
+		add(fmt.Sprintf("run-a-%d", n), bytes.Repeat([]byte{'a'}, n))
+		add(fmt.Sprintf("run-sp-%d", n), bytes.Repeat([]byte{' '}, n))
+		add(fmt.Sprintf("run-nul-%d", n), bytes.Repeat([]byte{0}, n))
 	}
 	// random, text, binary with structure
 	sizes := []int{1, 2, 10, 61, 500, 4000, 20000}
@@ -493,7 +493,10 @@ func MainRun(args []string) int {
 			}
 			// C07 (a): the library's stream goes to the reference decoder, within the symbol budget
 			cost := len(in.data) + 20
-			if crc && (spent+cost <= *budget || (thorough && in.name == "rebuild-70000")) && len(in.data) > 0 {
+			// window-boundary shapes are always judged by the reference codec (they are where a wrong lookahead mirror,
+			// window size or wrap shows), the rest within the symbol budget
+			priority := *budget > 0 && (strings.HasPrefix(in.name, "zero60-at-5") || strings.HasPrefix(in.name, "zero60-at-6") || strings.HasPrefix(in.name, "repeat-at"))
+			if crc && (priority || spent+cost <= *budget || (thorough && in.name == "rebuild-70000")) && len(in.data) > 0 {
 				if in.name != "short" || idx%7 == 0 || thorough {
 					addDec(in.name, ref, crc, in.data)
 					spent += cost
